@@ -252,6 +252,26 @@ Proof.
 Qed.
 Print Assumptions C15_model_satisfies_unit_clauses.
 
+(* the boolean clauses evaluated on observed runs (rcheck) decide the stated properties *)
+Theorem C15_run_oracle_decides : forall r,
+  (h_generations r = true <->
+     forall n, nog (r_lim r) = Some n ->
+       (List.length (r_evolved_sizes r) <= n /\ r_started r <= n /\ r_iters r <= n)%nat) /\
+  (h_stagnation r = true <->
+     forall a b, In (a, b) (step_pairs (r_pops r)) ->
+       (forall m, esi (r_lim r) = Some (S m) -> (p_stag a < S m)%nat) /\
+       (forall e, est (r_lim r) = Some e -> (p_stagdur a < e)%Q)) /\
+  (h_zero_budget r = true <->
+     forall t, tmo (r_lim r) = Some t -> (t <= 0)%Q ->
+       r_evolved_sizes r = [] /\ r_started r = 0%nat /\ r_iters r = 0%nat /\ r_wall_ms r <= PROMPT_MS) /\
+  (h_max_pop r = true <->
+     forall m, truthy_max (r_maxpop r) = Some m -> forall n, In n (r_evolved_sizes r) -> Z.of_nat n <= m).
+Proof.
+  intro r. split; [exact (h_generations_spec r)|]. split; [exact (h_stagnation_spec r)|].
+  split; [exact (h_zero_budget_spec r)|exact (h_max_pop_spec r)].
+Qed.
+Print Assumptions C15_run_oracle_decides.
+
 (* ---------------------------------------------------------------------------------------
    non-vacuity
    --------------------------------------------------------------------------------------- *)
